@@ -13,6 +13,7 @@ import (
 
 	"github.com/jf-tech/omniparser/idr"
 
+	"verifharness/cmd/c04/sx"
 	"verifharness/vh"
 )
 
@@ -21,7 +22,7 @@ import (
 type Case struct {
 	Format string `json:"format"` // "xml" | "json"
 	Text   string `json:"text"`
-	Target Target `json:"target"`
+	Target sx.Target `json:"target"`
 	Rel    []bool `json:"rel"`
 }
 
@@ -229,7 +230,7 @@ func runCase(c *Case, sum *vh.Summary, cw *vh.CaseWriter, verbose bool) caseInfo
 	if rejected > 0 && len(want) > 0 {
 		info.Hist = append(info.Hist, "rejected-and-accepted")
 	}
-	info.Hist = append(info.Hist, c.Target.classify()...)
+	info.Hist = append(info.Hist, c.Target.Classify()...)
 
 	// ---- the Coq case: same tokens, same target, observed deliveries ----
 	fin := "ObsEOF"
@@ -246,24 +247,24 @@ func runCase(c *Case, sum *vh.Summary, cw *vh.CaseWriter, verbose bool) caseInfo
 	}
 	var term string
 	if c.Format == "xml" {
-		toks, ok := xmlTokens(c.Text)
-		doc, ok2 := xmlFromTokens(toks)
+		toks, ok := sx.XMLTokens(c.Text)
+		doc, ok2 := sx.XMLFromTokens(toks)
 		if !ok || !ok2 {
 			info.Hist = append(info.Hist, "not-wellformed")
 			return info
 		}
-		term = fmt.Sprintf("XCase (mkXCase %s %s %s %s %s %s %s)", xdocCoq(doc), xtoksCoq(toks), c.Target.Coq(),
+		term = fmt.Sprintf("XCase (mkXCase %s %s %s %s %s %s %s)", sx.XDocCoq(doc), sx.XToksCoq(toks), c.Target.Coq(),
 			vh.CoqHex([]byte(xp)), vh.CoqList(rel), vh.CoqList(ds), fin)
 	} else {
-		toks, ok := jsonTokens(c.Text)
-		doc, ok2 := jsonFromTokens(toks)
+		toks, ok := sx.JSONTokens(c.Text)
+		doc, ok2 := sx.JSONFromTokens(toks)
 		if !ok || !ok2 {
 			info.Hist = append(info.Hist, "not-wellformed")
 			return info
 		}
 		var sb strings.Builder
-		doc.coq(&sb)
-		term = fmt.Sprintf("JCase (mkJCase (%s) %s %s %s %s %s %s)", sb.String(), jtoksCoq(toks), c.Target.Coq(),
+		doc.Coq(&sb)
+		term = fmt.Sprintf("JCase (mkJCase (%s) %s %s %s %s %s %s)", sb.String(), sx.JToksCoq(toks), c.Target.Coq(),
 			vh.CoqHex([]byte(xp)), vh.CoqList(rel), vh.CoqList(ds), fin)
 	}
 	cw.Add(term, c)
@@ -296,25 +297,25 @@ const maxFilters = 3
 
 func genCase(r *vh.Rng) (*Case, bool) {
 	if r.Chance(0.55) {
-		doc := genXMLDoc(r)
-		text := xmlText(r, doc)
-		toks, ok := xmlTokens(text)
-		back, ok2 := xmlFromTokens(toks)
-		if !ok || !ok2 || !sameXN(doc, back) {
+		doc := sx.GenXMLDoc(r)
+		text := sx.XMLText(r, doc)
+		toks, ok := sx.XMLTokens(text)
+		back, ok2 := sx.XMLFromTokens(toks)
+		if !ok || !ok2 || !sx.SameXN(doc, back) {
 			fmt.Fprintf(os.Stderr, "generator: xml.Decoder does not give back the generated document: %q\n", text)
 			return nil, false
 		}
-		return &Case{Format: "xml", Text: text, Target: genTarget(r, xmlVocab(doc), maxFilters, false), Rel: genRel(r)}, true
+		return &Case{Format: "xml", Text: text, Target: sx.GenTarget(r, sx.XMLVocab(doc), maxFilters, false), Rel: genRel(r)}, true
 	}
-	doc := genJSONDoc(r)
-	text := jsonText(r, doc)
-	toks, ok := jsonTokens(text)
-	back, ok2 := jsonFromTokens(toks)
-	if !ok || !ok2 || !sameJN(doc, back) {
+	doc := sx.GenJSONDoc(r)
+	text := sx.JSONText(r, doc)
+	toks, ok := sx.JSONTokens(text)
+	back, ok2 := sx.JSONFromTokens(toks)
+	if !ok || !ok2 || !sx.SameJN(doc, back) {
 		fmt.Fprintf(os.Stderr, "generator: json.Decoder does not give back the generated document: %q\n", text)
 		return nil, false
 	}
-	return &Case{Format: "json", Text: text, Target: genTarget(r, jsonVocab(doc), maxFilters, true), Rel: genRel(r)}, true
+	return &Case{Format: "json", Text: text, Target: sx.GenTarget(r, sx.JSONVocab(doc), maxFilters, true), Rel: genRel(r)}, true
 }
 
 type corpusFile struct {
